@@ -29,6 +29,15 @@ def _host_state_programs():
         c14.program("s20.bin", 'a+', [('write', b'ab'), ('seek', 0), ('read', -1), ('close',)]),
         c14.program("나/s20.bin", 'w+', [('write', b'xyz'), ('seek', 1), ('read', 1), ('close',)]),
         render(bi('ㅂ', str_lit("나/다.pbhhg"))) + " (ㄷ ㄱㅇㄱ ㅎㄴ ㅎ) ㅎㄴ",
+        # process-lifetime objects (the built-in module directories) as operands of a merge / a lookup
+        "ㅈㄷ ((ㅂ ㅅ ㅂㅎㄷ) (ㅂ ㄱ ㅅㅈㅎㄷ) ㄷㅎㄷ) ㅎㄴ".replace("ㅈㄷ (", "ㅂ (", 1),
+        "ㅂ ((ㅂ ㅅ ㅂㅎㄷ) ㅅㅈㅎㄱ ㄷㅎㄷ) ㅎㄴ",
+        "ㅂ (ㅂ ㅅ ㅂㅎㄷ) ㅎㄴ",
+        "ㅂ ((ㅂ ㅅ ㅂㅎㄷ) (ㅂ ㅂㄷ ㅂㅎㄷ) ㄷㅎㄷ) ㅎㄴ",
+        "ㄱ ((ㅂ ㅂㄷ ㅂㅎㄷ) (ㄱ ㄴ ㅅㅈㅎㄷ) ㄷㅎㄷ) ㅎㄴ",
+        "ㄴ ㄷ (ㄱ ((ㅂ ㅂㄷ ㅂㅎㄷ) ㅅㅈㅎㄱ ㄷㅎㄷ) ㅎㄴ) ㅎㄷ",
+        "ㄱ ((ㅂ ㅅ ㅂㄹ ㅂㅎㄹ) (ㄱ ㄹ ㅅㅈㅎㄷ) ㄷㅎㄷ) ㅎㄴ",
+        "(ㄴ ㅅㅅㅎㄴ ㄷ ㄴㄴㅎㄷ) (ㄱ ((ㅂ ㅅ ㅂㄹ ㅂㅎㄹ) ㅅㅈㅎㄱ ㄷㅎㄷ) ㅎㄴ) ㅎㄴ",
         "ㄱ (ㄱㅇㄱ ㄴ ㄷㅎㄷ ㄱㅇ ㅎㄴ ㅎ) ㅎㄴ",                   # unbounded non-tail-free loop: limit or runs forever? tail call: bounded by timeout
     ][:-1]
 
